@@ -201,5 +201,14 @@ def run(ctx):
     m_ = need("to_beta3")
     ctx.ob("C09.method-forwarding", "Lorentz.to_beta3",
            len(m_.sites) == 1 and site_ok(m_.sites[0], "lorentz", "to_beta3", ["self"], []), "expected lorentz.to_beta3.dispatch(self)")
+    from .. import singular as _sg
+    import re as _re
+
+    ctx.rule("C09.special-arguments",
+             "every variant of the boosts, evaluated (IEEE point semantics of the inlined IR) on generic operands with special values of the scalar arguments - 0, +-1, +-pi, pi/2, "
+             "+-0.5, and for several arguments each in turn - gives the values frozen from the pinned tree in tables/special_args.json: an algebraically equivalent rewrite "
+             "with a pole at a half turn / at rest / at zero (s**2/(1+c) for 1-c, (gamma-1)/beta**2 for gamma**2/(1+gamma)) changes them to NaN exactly there")
+    _n_sp = _sg.special_obligations(ctx, L, "C09.special-arguments", lambda short: bool(_re.search(r"boost", short)))
+    ctx.anchor("boosts variants with frozen special-argument values", _n_sp, 10)
     ctx.decline("v.boostCM_of_p4(v) having an exactly-zero spatial part in float64 (cancellation/rounding); the exact identity is proved")
     ctx.decline("ultra-relativistic rounding; non-Cartesian signatures are transported by C01")
